@@ -972,7 +972,9 @@ func (c *Checker) checkDestinations(x *callCtx, diffs []diffSlot) {
 		c.report(x, "C09", "%s ok although its arguments are structurally invalid", call.Fn)
 		return
 	}
-	if c.w.ShardOf(sh.dest) == vmcommon.MetachainShardId {
+	// a flagged refund goes back to whoever SENT the tokens (a metachain contract's NFT / multi transfer that was refused
+	// elsewhere comes home to the metachain node): that is not a transfer "addressed to the metachain"
+	if c.w.ShardOf(sh.dest) == vmcommon.MetachainShardId && !(call.RAE && x.ann.kind == "refund") {
 		c.report(x, "C09", "%s ok although the destination %x is on the metachain", call.Fn, sh.dest)
 	}
 	if call.Fn != FnTransfer && sh.senderForm {
